@@ -179,6 +179,24 @@ def path_case(draw):
                                 "max_patience": draw(st.integers(1, 3))}}
 
 
+@st.composite
+def dynamic_long_case(draw):
+    """long dynamic paths over 6-10 features with a slow schedule: features leave and re-enter the selection, the affinity of
+    a step is that of the features selected when it began"""
+    cls = draw(st.sampled_from(["SparseLinearMMD", "SparseMLPMMD", "SparseLinearModel"]))
+    s = draw(E.est_spec(classes=[cls], n_max=18, d_max=10, iter_max=3, k_max=3, hidden_max=3, n_min=8, d_min=6,
+                        gem_names=["mmd_ova", "mmd_ovo", "wasserstein_ova"], allow_instance=False, kernel_forms=("named",),
+                        lr=(0.1, 0.5, 0.05)))
+    s["x"]["xkind"] = draw(st.sampled_from(["normal", "blobs"]))
+    s["dynamic"] = True
+    s["groups"] = None
+    s.pop("gcont", None)
+    bias_batch(draw, s)
+    s["alpha"] = draw(st.sampled_from([0.02, 0.05, 0.1]))
+    return {"spec": s, "path": {"alpha_multiplier": draw(st.sampled_from([1.1, 1.2, 1.05, 1.3])), "min_features": draw(st.integers(1, 3)),
+                                "max_patience": draw(st.integers(1, 3))}}
+
+
 def oracle_path(case):
     s = case["spec"]
     label = E.label(s) + f".path({case['path']})"
@@ -280,4 +298,5 @@ def _subs():
            "categorical_douglas": E.CATEGORICAL + ["Douglas"]}
     out = [Sub("fit_" + k, fit_case(classes=v), oracle_fit, 800, 15000, ", ".join(v)) for k, v in fam.items()]
     out.append(Sub("path_sparse", path_case(), oracle_path, 300, 5000, "path() of the sparse estimators incl. validation blocks"))
+    out.append(Sub("path_dynamic_long", dynamic_long_case(), oracle_path, 40, 1000, "long dynamic paths over 6-10 features (selection leaves and re-enters)"))
     return out
